@@ -125,15 +125,15 @@ theorem body_render (nonStrict : Bool) (doc : DocSpec) (hd : doc.Distinct) :
   | status n => rfl
   | unparsable =>
     cases nonStrict <;> simp [renderDoc, mirrorBody, createVars, createActions, Xml.find, Xml.children, dictValues,
-      PyDict.ofList, PyDict.merge, PyDict.values]
+      PyDict.ofList, PyDict.merge, PyDict.values, degrade]
   | foreign n t =>
     cases nonStrict
     · simp only [renderDoc, mirrorBody, Bool.not_false, Bool.true_and]
       by_cases h : Xml.isNamed .service .scpd (Xml.node n t none none []) = true
-      · simp [h, createVars, Xml.find, Xml.children]
+      · simp [h, createVars, Xml.find, Xml.children, degrade]
       · simp [h]
     · simp [renderDoc, mirrorBody, createVars, createActions, Xml.find, Xml.children, dictValues,
-        PyDict.ofList, PyDict.merge, PyDict.values]
+        PyDict.ofList, PyDict.merge, PyDict.values, degrade]
   | scpd sp =>
     have hroot : Xml.isNamed .service .scpd (renderScpd sp) = true := rfl
     simp only [renderDoc, hroot, Bool.not_true, Bool.and_false, Bool.false_eq_true, if_false, mirrorBody]
@@ -142,12 +142,13 @@ theorem body_render (nonStrict : Bool) (doc : DocSpec) (hd : doc.Distinct) :
     cases hv : sp.vars with
     | none =>
       cases nonStrict
-      · simp
+      · simp [degrade]
       · simp only [if_true]
         rw [createActions_render true [] (by simp) sp, hv]
-        cases sp.actions <;> simp [dictValues, PyDict.ofList, PyDict.merge, PyDict.values]
+        cases sp.actions <;> simp [dictValues, PyDict.ofList, PyDict.merge, PyDict.values, degrade]
     | some l =>
       simp only
+      congr 1
       cases hm : mapE (mirrorVar fo tb nonStrict) l with
       | error e => rfl
       | ok vars =>
